@@ -132,6 +132,45 @@ def count_up_loop(ck, prog, config, clause, fn):
           else 'scan loop broken: ' + detail, fn.file, fn.line, config=config)
 
 
+def scan_reads(ck, prog, config, clause_c, clause_f):
+    """Read-failure discipline (R1) and loop extents / hash-what-you-read pairing of the two scan functions."""
+    # ---- c
+    sites, convs = errdisc.analyse_sites(prog, want_site=lambda fn, c, label: fn.name in SCANS and
+                                         label in ('read_data', 'seek_data', 'hash_update', 'hash_init',
+                                                   'validate_chunk', 'validate_file'))
+    k = 0
+    for s in sorted(sites, key=lambda r: (r['caller'].qname, r['call'].line)):
+        k += 1
+        for v in s['violations'] or [None]:
+            ck.ob(clause_c, 'R1.errdisc', s['caller'].name, '%s#%d%s' % (s['callee'], k, (':' + v['kind']) if v else ''),
+                  v is None, 'failure of %s changes the verdict' % s['callee'] if v is None else
+                  '%s: %s' % (v['kind'], v['what']), s['call'].file, s['call'].line, config=config,
+                  trivial=bool(s.get('trivial')))
+    ck.min_instances('checked calls in the scan functions', k, 6)
+    vc = prog.need_func('validate_checksums')
+    # ---- f
+    count_up_loop(ck, prog, config, clause_f, vc)
+    dlrules.chunk_loop(ck, prog, config, clause_f, 'zck_validate_data_checksum', 'idx->comp_length',
+                       [('read_data', 2), ('hash_update', 3)])
+    from .c02 import pairing
+    ck2 = ck
+    # the bytes hashed are the bytes read (count variable of read_data)
+    fnv = vc
+    subst = unique_defs(fnv)
+    rds = calls_of(fnv, ('read_data',))
+    hus = [c for c in calls_of(fnv, ('hash_update',))]
+    cnt = None
+    for s in walk_stmts(fnv.body):
+        if s.k == 'decl' and s.e is not None and any(x is rds[0] for x in walk(s.e)):
+            cnt = s.var.op
+    for c in hus:
+        okh = pstr(c.a[3], subst) == pstr(rds[0].a[2], subst) and pstr(c.a[4], subst) == cnt
+        ck.ob(clause_f, 'R4.pairing', fnv.name, 'hash_update(%s)' % pstr(c.a[2], subst).split('->')[-1], okh,
+              'hash_update consumes (%s, %s); read_data filled %s and returned %s' % (
+                  pstr(c.a[3], subst), pstr(c.a[4], subst), pstr(rds[0].a[2], subst), cnt), c.file, c.line,
+              config=config)
+
+
 def run(ctx):
     ck = ctx.check
     ck.explanation = (
@@ -179,19 +218,7 @@ def run(ctx):
                 v = by.get(inst)
                 ck.ob(clause, 'R6.restore', name, inst, v is None, text if v is None else v.msg, fn.file,
                       v.node.line if v else fn.line, path=v.path if v else None, config=config)
-        # ---- c
-        sites, convs = errdisc.analyse_sites(prog, want_site=lambda fn, c, label: fn.name in SCANS and
-                                             label in ('read_data', 'seek_data', 'hash_update', 'hash_init',
-                                                       'validate_chunk', 'validate_file'))
-        k = 0
-        for s in sorted(sites, key=lambda r: (r['caller'].qname, r['call'].line)):
-            k += 1
-            for v in s['violations'] or [None]:
-                ck.ob('C09-c', 'R1.errdisc', s['caller'].name, '%s#%d%s' % (s['callee'], k, (':' + v['kind']) if v else ''),
-                      v is None, 'failure of %s changes the verdict' % s['callee'] if v is None else
-                      '%s: %s' % (v['kind'], v['what']), s['call'].file, s['call'].line, config=config,
-                      trivial=bool(s.get('trivial')))
-        ck.min_instances('checked calls in the scan functions', k, 6)
+        scan_reads(ck, prog, config, 'C09-c', 'C09-f')
         # ---- d
         vc = prog.need_func('validate_checksums')
         g = prog.cfg(vc)
@@ -326,27 +353,6 @@ def run(ctx):
         ck.ob('C09-d', 'R8.loop-shape', vc.name, 'invalidate-all-loop', okinv,
               'the invalidate-all loop walks index.first .. NULL unconditionally' if okinv else
               'no unconditional loop over the whole chunk list storing valid = -1', vc.file, vc.line, config=config)
-        # ---- f
-        count_up_loop(ck, prog, config, 'C09-f', vc)
-        dlrules.chunk_loop(ck, prog, config, 'C09-f', 'zck_validate_data_checksum', 'idx->comp_length',
-                           [('read_data', 2), ('hash_update', 3)])
-        from .c02 import pairing
-        ck2 = ck
-        # the bytes hashed are the bytes read (count variable of read_data)
-        fnv = vc
-        subst = unique_defs(fnv)
-        rds = calls_of(fnv, ('read_data',))
-        hus = [c for c in calls_of(fnv, ('hash_update',))]
-        cnt = None
-        for s in walk_stmts(fnv.body):
-            if s.k == 'decl' and s.e is not None and any(x is rds[0] for x in walk(s.e)):
-                cnt = s.var.op
-        for c in hus:
-            okh = pstr(c.a[3], subst) == pstr(rds[0].a[2], subst) and pstr(c.a[4], subst) == cnt
-            ck.ob('C09-f', 'R4.pairing', fnv.name, 'hash_update(%s)' % pstr(c.a[2], subst).split('->')[-1], okh,
-                  'hash_update consumes (%s, %s); read_data filled %s and returned %s' % (
-                      pstr(c.a[3], subst), pstr(c.a[4], subst), pstr(rds[0].a[2], subst), cnt), c.file, c.line,
-                  config=config)
 
 
 CLAIM = {
